@@ -280,8 +280,6 @@ func checkC19(c *Ctx) {
 	for _, o := range []obl{
 		{"named argument together with a variadic parameter", []string{"=expr.Param[*].NodeType == " + asg, "=flag{params[*].Variable}"}, nil},
 		{"name of a named argument is not an identifier", []string{"LHS[0].NodeType != " + ident}, []string{"=expr.Param[*].NodeType == " + asg}},
-		{"unknown parameter name", []string{"!(flag{params[*].Name == "}, []string{"=expr.Param[*].NodeType == " + asg}},
-		{"parameter bound twice", []string{"params[*].Name == ", "[*] != nil"}, []string{"=expr.Param[*].NodeType == " + asg}},
 		{"positional argument after a named one", []string{"=!(expr.Param[*].NodeType == " + asg + ")", "=flag{expr.Param[*].NodeType == " + asg + "}"}, nil},
 		{"missing required parameter", []string{"=params[*].Val == nil", "=!(params[*].Variable)", "[*] == nil"}, []string{"=!((phi:"}},
 	} {
@@ -297,6 +295,56 @@ func checkC19(c *Ctx) {
 			pos = t.Pos(where.Pos())
 		}
 		r.Ob("REJECTS", "CheckPassParam rejects: "+o.name, pos, ok, fmt.Sprintf("no error return is guarded by the conditions %v", o.needles))
+	}
+
+	// unknown name / bound twice: the slot index must be the index of the parameter whose name matched, found either
+	// by an inline loop (`params[j].Name == name` on the controlling path, same j) or by an index-lookup helper.
+	idxFns := indexLookupFns(t)
+	for f := range idxFns {
+		r.Fn(relName(f))
+	}
+	{
+		okUnknown, okDup := false, false
+		var posU, posD token.Pos
+		for _, s := range passSites {
+			extra := false
+			hasUnknown, hasDup := false, false
+			ecs := controlling(s.ret.Block())
+			for i, ec := range ecs {
+				d := s.facts[i]
+				switch {
+				case s.neutral[i], d == "expr.Param[*].NodeType == "+asg:
+				case strings.HasPrefix(d, "!(flag{params[*].Name == "):
+					hasUnknown = true
+				case isIndexLookupNegative(ec, idxFns):
+					hasUnknown = true
+				case isSlotNonNil(ec, idxFns):
+					hasDup = true
+				case strings.HasPrefix(d, "params[*].Name == ") && ec.Pol:
+					// inline match context of the duplicate test
+				default:
+					extra = true
+				}
+			}
+			if extra {
+				continue
+			}
+			if hasUnknown && !hasDup {
+				okUnknown, posU = true, s.ret.Pos()
+			}
+			if hasDup {
+				okDup, posD = true, s.ret.Pos()
+			}
+		}
+		pu, pd := t.Pos(pass.Pos()), t.Pos(pass.Pos())
+		if okUnknown {
+			pu = t.Pos(posU)
+		}
+		if okDup {
+			pd = t.Pos(posD)
+		}
+		r.Ob("REJECTS", "CheckPassParam rejects: unknown parameter name", pu, okUnknown, "no error return is guarded exactly by `no parameter has this name` (inline search flag or index-lookup helper < 0)")
+		r.Ob("REJECTS", "CheckPassParam rejects: parameter bound twice", pd, okDup, "no error return is guarded exactly by `the slot of the parameter whose name matched is already filled` — a named argument can then silently replace an argument bound earlier, positional ones included")
 	}
 
 	// ---- (3) placement
@@ -376,7 +424,7 @@ func checkC19(c *Ctx) {
 		r.Ob("PLACEMENT", "CheckPassParam named store", t.Pos(pass.Pos()), false, "store of a named argument into its slot not found")
 	} else {
 		ia := namedStore.Addr.(*ssa.IndexAddr)
-		ok := false
+		ok := matchedSlotIndex(ia.Index, namedStore.Block(), idxFns)
 		for _, ec := range controlling(namedStore.Block()) {
 			if bo, isB := ec.Cond.(*ssa.BinOp); isB && bo.Op == token.EQL && ec.Pol {
 				// params[j].Name == pName with j == slot index
@@ -478,4 +526,119 @@ func ordinalOf(fn *ssa.Function, x ssa.Instruction) int {
 		}
 	}
 	return n
+}
+
+
+// indexLookupFns: functions of runtimev2 of the shape `for i := range params { if params[i].Name == name { return i } }; return -1`.
+func indexLookupFns(t *Tree) map[*ssa.Function]bool {
+	out := map[*ssa.Function]bool{}
+	for _, f := range t.PkgFuncs(pRT2) {
+		if f.Signature.Results().Len() != 1 || !isIntType(f.Signature.Results().At(0).Type()) || len(f.Params) != 2 {
+			continue
+		}
+		retIdx, retNeg, bad := false, false, false
+		allInstrs(f, func(in ssa.Instruction) {
+			ret, ok := in.(*ssa.Return)
+			if !ok {
+				return
+			}
+			if v, ok := constInt(ret.Results[0]); ok {
+				if v == -1 {
+					retNeg = true
+				} else {
+					bad = true
+				}
+				return
+			}
+			// returns the loop index under params[i].Name == name
+			okc := false
+			for _, ec := range controlling(ret.Block()) {
+				if bo, ok := ec.Cond.(*ssa.BinOp); ok && bo.Op == token.EQL && ec.Pol {
+					if nameCmpIndex(bo) == ret.Results[0] {
+						okc = true
+					}
+				}
+			}
+			if okc {
+				retIdx = true
+			} else {
+				bad = true
+			}
+		})
+		if retIdx && retNeg && !bad {
+			out[f] = true
+		}
+	}
+	return out
+}
+
+// nameCmpIndex: for `params[j].Name == x` returns the SSA value j.
+func nameCmpIndex(bo *ssa.BinOp) ssa.Value {
+	for _, side := range []ssa.Value{bo.X, bo.Y} {
+		if ld, ok := side.(*ssa.UnOp); ok {
+			if fa, ok := ld.X.(*ssa.FieldAddr); ok && fieldName(fa) == "Name" {
+				if pl, ok := fa.X.(*ssa.UnOp); ok {
+					if pia, ok := pl.X.(*ssa.IndexAddr); ok {
+						return pia.Index
+					}
+				}
+			}
+		}
+	}
+	return nil
+}
+
+// matchedSlotIndex: idx is the index of the parameter whose name matched — the result of an index-lookup
+// helper, or the loop index under a controlling `params[idx].Name == name`.
+func matchedSlotIndex(idx ssa.Value, blk *ssa.BasicBlock, idxFns map[*ssa.Function]bool) bool {
+	if call, ok := idx.(*ssa.Call); ok && idxFns[call.Call.StaticCallee()] {
+		return true
+	}
+	for _, ec := range controlling(blk) {
+		if bo, ok := ec.Cond.(*ssa.BinOp); ok && bo.Op == token.EQL && ec.Pol && nameCmpIndex(bo) == idx && idx != nil {
+			return true
+		}
+	}
+	return false
+}
+
+func isIndexLookupNegative(ec edgeCond, idxFns map[*ssa.Function]bool) bool {
+	bo, ok := ec.Cond.(*ssa.BinOp)
+	if !ok {
+		return false
+	}
+	call, ok := bo.X.(*ssa.Call)
+	if !ok || !idxFns[call.Call.StaticCallee()] {
+		return false
+	}
+	v, isC := constInt(bo.Y)
+	switch {
+	case bo.Op == token.LSS && isC && v == 0 && ec.Pol:
+		return true
+	case bo.Op == token.GEQ && isC && v == 0 && !ec.Pol:
+		return true
+	case bo.Op == token.EQL && isC && v == -1 && ec.Pol:
+		return true
+	}
+	return false
+}
+
+// isSlotNonNil: the edge says `newArgs[k] != nil` with k the matched parameter index.
+func isSlotNonNil(ec edgeCond, idxFns map[*ssa.Function]bool) bool {
+	bo, ok := ec.Cond.(*ssa.BinOp)
+	if !ok || !isNilConst(bo.Y) {
+		return false
+	}
+	if !((bo.Op == token.NEQ && ec.Pol) || (bo.Op == token.EQL && !ec.Pol)) {
+		return false
+	}
+	ld, ok := bo.X.(*ssa.UnOp)
+	if !ok {
+		return false
+	}
+	ia, ok := ld.X.(*ssa.IndexAddr)
+	if !ok || !strings.HasSuffix(ia.X.Type().String(), "ast.Node") {
+		return false
+	}
+	return matchedSlotIndex(ia.Index, ec.If, idxFns)
 }
